@@ -1,8 +1,11 @@
 package main
 
 import (
+	"io"
+
 	"encoding/json"
 	"fmt"
+	cptv "github.com/TheCacophonyProject/go-cptv"
 	"io/ioutil"
 	"math/rand"
 	"os"
@@ -19,6 +22,7 @@ type raceInput struct {
 	Requesters       int
 	PauseUs          int
 	RaceDetector     bool
+	Const            bool // constant recorder on (snapseq runs)
 }
 
 var raceVarNames = map[int]string{0: "ring-index", 1: "ring-slots", 2: "CurrentFrame", 3: "StartSnapshot", 4: "processor", 5: "headerInfo", 99: "unclassified"}
@@ -64,12 +68,35 @@ func snapSeqRun(in raceInput) (summary map[string]interface{}, ok bool) {
 	defer os.RemoveAll(dir)
 	out := filepath.Join(dir, "out")
 	os.Mkdir(out, 0755)
-	toml := fmt.Sprintf("[lepton]\nframe-output = %q\n[thermal-recorder]\noutput-dir = %q\nmin-disk-space-mb = 0\npreview-secs = %d\nmin-secs = 1\nmax-secs = 3\n[windows]\nstart-recording = \"12:00\"\nstop-recording = \"12:00\"\n[thermal-throttler]\nactivate = false\n[thermal-motion]\ntrigger-frames = %d\n",
-		filepath.Join(dir, "s"), out, in.Preview, in.Trigger)
+	toml := fmt.Sprintf("[lepton]\nframe-output = %q\n[thermal-recorder]\noutput-dir = %q\nconstant-recorder = %v\nmin-disk-space-mb = 0\npreview-secs = %d\nmin-secs = 1\nmax-secs = 3\n[windows]\nstart-recording = \"12:00\"\nstop-recording = \"12:00\"\n[thermal-throttler]\nactivate = false\n[thermal-motion]\ntrigger-frames = %d\n",
+		filepath.Join(dir, "s"), out, in.Const, in.Preview, in.Trigger)
 	ioutil.WriteFile(filepath.Join(dir, "config.toml"), []byte(toml), 0644)
 	cmd := exec.Command(buildDir() + "/tr-driver")
-	cmd.Env = append(os.Environ(), "VERIF_DRIVER=snapseq", fmt.Sprintf("VERIF_ARGS=%s %d %d", dir, in.Frames, in.PauseUs), "TZ=UTC")
+	cmd.Env = append(os.Environ(), "VERIF_DRIVER=snapseq", fmt.Sprintf("VERIF_ARGS=%s %d %d %d", dir, in.Frames, in.PauseUs, in.Requesters), "TZ=UTC")
 	stdout, _ := cmd.Output()
+	if in.Requesters > 0 {
+		// the finished files of the output directory: test recordings (uniform frames cause no motion)
+		names, _ := filepath.Glob(filepath.Join(out, "*"))
+		sort.Strings(names)
+		var files [][]int
+		var leftovers []string
+		for _, n := range names {
+			if fi, err := os.Stat(n); err != nil || fi.IsDir() {
+				continue
+			}
+			if !strings.HasSuffix(n, ".cptv") {
+				leftovers = append(leftovers, filepath.Base(n))
+				continue
+			}
+			files = append(files, uniformFrameValues(n))
+		}
+		defer func() {
+			if summary != nil {
+				summary["test_files"] = files
+				summary["leftovers"] = leftovers
+			}
+		}()
+	}
 	for _, line := range strings.Split(string(stdout), "\n") {
 		if strings.Contains(line, "snapseq-summary") {
 			json.Unmarshal([]byte(line), &summary)
@@ -77,6 +104,74 @@ func snapSeqRun(in raceInput) (summary map[string]interface{}, ok bool) {
 		}
 	}
 	return
+}
+
+// the value of pixel (60,80) of every non-background frame of a CPTV file (-1: file does not decode)
+func uniformFrameValues(path string) []int {
+	r, err := cptv.NewFileReader(path)
+	if err != nil {
+		return []int{-1}
+	}
+	defer r.Close()
+	fr := r.EmptyFrame()
+	var vals []int
+	for {
+		err := r.ReadFrame(fr)
+		if err == io.EOF {
+			break
+		}
+		if err != nil {
+			return append(vals, -1)
+		}
+		if fr.Status.BackgroundFrame {
+			continue
+		}
+		vals = append(vals, int(fr.Pix[60][80]))
+	}
+	return vals
+}
+
+// TESTREC (C17, test-recording clause through the real wiring): the real handleConn is fed
+// uniform frames one at a time; after every k-th completed frame service.TakeTestRecording() is
+// called, as the D-Bus service would. Every request must yield one finished file in the output
+// directory holding exactly the 21 frames that follow the request, in order.
+func init() {
+	runners["TESTREC"] = func(rng *rand.Rand, n int, tier string, emit func(Case)) {
+		for i := 0; i < n; i++ {
+			every := 23 + rng.Intn(30)
+			in := raceInput{Preview: 1, Trigger: 2, Frames: 150 + rng.Intn(60), Conns: 1, Requesters: every, PauseUs: []int{0, 40}[i%2], Const: i%2 == 0}
+			sum, ok := snapSeqRun(in)
+			why := ""
+			var reqs []int
+			if ok {
+				for _, v := range sum["test_requests_after_frames"].([]interface{}) {
+					reqs = append(reqs, int(v.(float64)))
+				}
+				files, _ := sum["test_files"].([][]int)
+				if len(files) != len(reqs) {
+					ok, why = false, fmt.Sprintf("%d requests, %d finished files", len(reqs), len(files))
+				}
+				for k := 0; k < len(files) && k < len(reqs); k++ {
+					// frame i carries the value i%60000+1; the recording starts with the frame after the request
+					want := make([]int, 21)
+					for j := range want {
+						want[j] = (reqs[k]+1+j)%60000 + 1
+					}
+					if fmt.Sprint(files[k]) != fmt.Sprint(want) {
+						ok, why = false, why+fmt.Sprintf(" [request after frame %d: file holds %v]", reqs[k], files[k])
+					}
+				}
+				if l, _ := sum["leftovers"].([]string); len(l) > 0 {
+					ok, why = false, why+fmt.Sprintf(" [temporaries left: %v]", l)
+				}
+			} else {
+				why = "driver did not report"
+			}
+			emit(Case{Coq: fmt.Sprintf("mkLag %s %d %d", coqBool(ok), len(reqs), in.Frames), Input: in,
+				Impl: map[string]interface{}{"ok": ok, "why": why, "summary": sum},
+				Tags: []string{fmt.Sprintf("test-requests=%d", len(reqs)), "test-recording-e2e"}, Nontriv: len(reqs) >= 2, Key: fmt.Sprint("testrec", every, in.Frames)})
+		}
+	}
 }
 
 var reFrame = regexp.MustCompile(`^\s+(/\S+\.go):(\d+) `)
